@@ -84,6 +84,30 @@ def _P(E, **kw):
     return p
 
 
+@contract(SK + "sklearn_parameters.py::SkLearnParameters.__init__", "C01")
+class ParametersInit(Contract):
+    """the parameter holder behind SkBase.P keeps the very objects it is given (scikit-learn's clone compares by identity: a copied list
+    or dict parameter makes clone raise) and lists their names in the order given"""
+    variants = ["scalars", "containers"]
+
+    def setup(self, E, v):
+        kw = {"pa1": val(E, "a"), "pa2": None}
+        if v == "containers":
+            kw = {"alist": [val(E, "x"), val(E, "y")], "adict": {"k": val(E, "z")}, "empty": [], "atuple": (val(E, "t"),), "name": "text"}
+        s = Obj(E.repo.module(SK + "sklearn_parameters.py").defs["SkLearnParameters"])
+        return dict(self=s, kwargs=kw, _kw=dict(kw))
+
+    def ensures(self, E, a, res, old):
+        s = a.self
+        out = {"names_in_the_order_given": z3.BoolVal(s.fields.get("_keys") == list(a._kw))}
+        for k, v in a._kw.items():
+            out["parameter_%s_is_the_object_given" % k] = z3.BoolVal(k in s.fields and s.fields[k] is v)
+        return out
+
+    canaries = {"a_copy_of_the_list_would_do": lambda E, a, res, old: z3.BoolVal(
+        "alist" not in a._kw or (a.self.fields.get("alist") == a._kw["alist"] and a.self.fields.get("alist") is not a._kw["alist"]))}
+
+
 @contract(SK + "sklearn_base.py::SkBase.set_params", "C01")
 class SkBaseSet(Contract):
     variants = ["pa1", "pa2", "both", "set_to_none", "was_none"]
